@@ -1059,7 +1059,12 @@ func (g *Gen) opAliasBurst(conns []*Client) {
 		g.w.Exec(Op{K: "qevent", S: name})
 		for _, pv := range g.w.PendingSorted() {
 			if strings.HasPrefix(pv.P.Subject, "_EVQ.") && g.w.qevSubjects[pv.P.Subject] == name {
-				g.w.Exec(Op{K: "ans", S: pv.P.Subject, Q: pv.P.Query, A: actorEnc(pv.Actor), N: pv.Ord, O: "ok"})
+				op := Op{K: "ans", S: pv.P.Subject, Q: pv.P.Query, A: actorEnc(pv.Actor), N: pv.Ord, O: "ok"}
+				// the resource is gone: a delete while a subscriber still waits for its own get
+				if rapid.IntRange(0, 3).Draw(g.t, "abqnotfound") == 0 {
+					op.O, op.P = "err", "system.notFound"
+				}
+				g.w.Exec(op)
 			}
 		}
 	}
